@@ -533,7 +533,7 @@ class Text(JupyterMixin):
         text = self.plain
         if not text.strip():
             return Measurement(cell_len(text), cell_len(text))
-        max_text_width = max(cell_len(line) for line in text.splitlines())
+        max_text_width = max(cell_len(line) for line in text.split("\n"))
         min_text_width = max(cell_len(word) for word in text.split())
         return Measurement(min_text_width, max_text_width)
 
